@@ -208,15 +208,15 @@ int main(int argc, char ** argv)
                    }
                    return "{\"name\":" + vx::jstr(names[i]) + ",\"init\":" + std::to_string(ok) + ",\"mode\":" + std::to_string(mode_ok) + ",\"particles\":" + std::to_string(np) + ",\"label\":" + vx::jstr(label) + "}";
                  },
-                 [&](size_t, const std::string & r) { printf("%s\n", r.c_str()); },
-                 [&](size_t i, const std::string & how) { printf("{\"name\":%s,\"crashed\":%s}\n", vx::jstr(names[i]).c_str(), vx::jstr(how).c_str()); });
+                 [&](size_t, const std::string & r) { printf("%s\n", r.c_str()); fflush(stdout); },
+                 [&](size_t i, const std::string & how) { printf("{\"name\":%s,\"crashed\":%s}\n", vx::jstr(names[i]).c_str(), vx::jstr(how).c_str()); fflush(stdout); });
     return 0;
   }
   if (mode == "scheme") {
     int nphase = argc > 2 ? atoi(argv[2]) : 2;
     bool deep = argc > 3 && std::string(argv[3]) == "deep";
     size_t n = sizeof SCHEMES / sizeof SCHEMES[0];
-    vx::run_pool(n, 16, 2400, [&](size_t i) { return scheme_check(SCHEMES[i], nphase, deep); }, [&](size_t, const std::string & r) { printf("%s\n", r.c_str()); },
+    vx::run_pool(n, 16, 2400, [&](size_t i) { return scheme_check(SCHEMES[i], nphase, deep); }, [&](size_t, const std::string & r) { printf("%s\n", r.c_str()); fflush(stdout); },
                  [&](size_t i, const std::string & how) { printf("{\"name\":%s,\"crashed\":%s}\n", vx::jstr(SCHEMES[i].name).c_str(), vx::jstr(how).c_str()); });
     return 0;
   }
